@@ -1323,7 +1323,12 @@ func shapes(k *kindSpec, group string, th bool, f func(s Shape)) {
 								for _, rp := range repls {
 									// the Deployment handler does not read the Deployment status: the quick tier crosses the
 									// non-default statuses with the core of the other fields only
-									if k.Class == "Deployment" && !th && status != 0 && (an != 0 || rp != repls[0] || pz != pauseds[0]) {
+									if k.Class == "Deployment" && status != 0 && (an != 0 || pz != pauseds[0] || (!th && rp != repls[0])) {
+										continue
+									}
+									// thorough: the readiness variants of the native / foreign StatefulSet (same unstructured code path as
+									// the Advanced StatefulSet, which gets the full cross) are crossed with absent annotations only
+									if th && (k.Class == "StatefulSet" || k.Class == "ForeignStatefulSetLike") && status >= 3 && an != 0 {
 										continue
 									}
 									for _, rid := range rids {
@@ -1486,7 +1491,7 @@ func Run(r *lib.Report) {
 	r.Rule = "every (old object, new object, Rollout set[, ReplicaSet set]) in the product of per-field alphabets - kind {Deployment, CloneSet, Advanced DaemonSet, " +
 		"native StatefulSet, Advanced StatefulSet, a foreign StatefulSet-like kind} x template edit {none, image, hash-label only, ...} x rollout-id (old,new) x replicas (old,new) incl. absent/0 " +
 		"x annotations {absent, {}, user keys} x in-progressing marker (old,new) x strategy block {absent, {}, RollingUpdate, Recreate/OnDelete, paused, no rollingUpdate block} x " +
-		"status {single revision, several revisions, absent} x (Deployment) paused (old,new), deployment-strategy annotation {none, partition, canary, garbage}, original-strategy annotation, " +
+		"status {single revision all ready, several revisions ready!=updated, absent, single revision one pod unready, several revisions ready==updated} (readiness varies independently of the revision counts) x (Deployment) paused (old,new), deployment-strategy annotation {none, partition, canary, garbage}, original-strategy annotation, " +
 		"ReplicaSets {one, none, two active, scaled-down, foreign owner} x Rollout set {none, matching, with traffic routing, blue-green, other name/kind/group/namespace, disabled, deleting, empty strategy, pairs} " +
 		"plus unselected label shapes, status-subresource updates and creations - is sent as a real JSON admission request through the handler chain of the shipped webhook configuration; " +
 		"the returned JSON patch is applied to the submitted bytes. The domain is the union of three sub-products per kind: 'enter' (no marker before the edit / marker on both sides), " +
